@@ -1,17 +1,18 @@
 #!/bin/bash
-# usage: tools/try_patch.sh <patch.diff> <Cxx> [tier]  -- apply to /repo, run the check, always revert
+# usage: tools/try_patch.sh <patch.diff> <Cxx> [tier]  -- apply to /repo (or $VERIF_REPO, with the machinery at $VERIF_HOME), run the check, always revert
 set -u
 P=$1; ID=$2; T=${3:-quick}
-cd /repo || exit 9
+VH=${VERIF_HOME:-/verif}; VR=${VERIF_REPO:-/repo}
+cd $VR || exit 9
 if ! git diff --quiet; then echo "repo dirty"; exit 9; fi
 if ! git apply "$P" 2>/tmp/apply.err; then
   if ! git apply --3way "$P" 2>>/tmp/apply.err; then echo "PATCH DOES NOT APPLY: $(head -3 /tmp/apply.err)"; git checkout HEAD -- . ; git reset -q; exit 8; fi
 fi
 git reset -q 2>/dev/null
 # the evidence file describes the unchanged tree: keep it out of the way of a run on a patched tree
-EV=/verif/evidence/$ID.json; SAVE=$(mktemp); [ -f "$EV" ] && cp "$EV" "$SAVE"
-cd /verif && ./vc check "$ID" --tier "$T"; rc=$?
+EV=$VH/evidence/$ID.json; SAVE=$(mktemp); [ -f "$EV" ] && cp "$EV" "$SAVE"
+cd $VH && ./vc check "$ID" --tier "$T"; rc=$?
 [ -s "$SAVE" ] && cp "$SAVE" "$EV"; rm -f "$SAVE"
-cd /repo && git checkout -- . && git clean -fdq -e target
+cd $VR && git checkout -- . && git clean -fdq -e target
 echo "rc=$rc"
 exit $rc
